@@ -1,6 +1,6 @@
 (* Model/Decode.v — decoding whole models and parameters from the harness's JSON, and the   *)
 (* end-to-end entry points of the runner (specification side).                               *)
-From LCM Require Import Base.Prelude Base.Arr Base.Json Spec.Lang Spec.Bellman Spec.Layout.
+From LCM Require Import Base.Prelude Base.Arr Base.Json Spec.Lang Spec.Bellman Spec.Layout Model.ParamsTemplate.
 Local Open Scope string_scope.
 
 Fixpoint jexpr (fuel : nat) (j : json) : option expr :=
@@ -130,3 +130,12 @@ Definition run_state_space (c : json) : option json :=
               ("dense_names", of_list JStr (map fst (free_discrete_states m)
                                             ++ map fst (filter (fun sg => negb (is_restricted m (fst sg)) && negb (is_cont (snd sg))) (choices m))
                                             ++ map fst (free_continuous_states m))%list)]).
+
+(* ---- the parameter template (C07) -------------------------------------------------------------- *)
+Definition run_template (c : json) : option json :=
+  do m <- jfield_of jmodel "model" c ;;
+  Some (JObj [("keys", of_list JStr (template_keys m));
+              ("entries", JObj (map (fun f => (fname f, of_list JStr (function_params m f))) (functions m)));
+              ("shocks", JObj (map (fun sg => (fst sg, match shock_shape m (fst sg) with
+                                                        | Some sh => of_list of_nat sh | None => JNull end))
+                                   (stoch_states m)))]).
